@@ -9,7 +9,7 @@
 (*   [t |-> "simp", a, b, envs, status, idem]   one recorded simplifier call:       *)
 (*         Call(a) -> Return(b) -> Call(b) -> Return(b2); status is "ok" or names   *)
 (*         the exception / exhausted budget; idem says b2 is the same object as b   *)
-EXTENDS Expr, Json, IOUtils
+EXTENDS Expr, Json, IOUtils, FiniteSets
 VARIABLES lo, hi
 Items == JsonDeserialize(IOEnv.ITEMS_FILE)
 (* the batch is split by bisection so that TLC's workers judge the items in parallel *)
@@ -18,7 +18,7 @@ Next == /\ lo < hi
         /\ LET mid == (lo + hi) \div 2 IN
            \/ lo' = lo /\ hi' = mid
            \/ lo' = mid + 1 /\ hi' = hi
-i == lo
+cur == lo
 
 RECURSIVE FirstBadEq(_, _, _, _)
 FirstBadEq(a, b, envs, k) ==
@@ -37,6 +37,65 @@ FirstBadVal(a, envs, vs, k) ==
        ELSE IF va.ok /\ va.v # FromBytes(vs[k], a.w) THEN k
        ELSE FirstBadVal(a, envs, vs, k + 1)
 
+(* ---- C09: possible values.  alts[j] = [cons |-> <<[e |-> cond, z |-> TRUE iff "cond = 0">>..>>, v |-> value expr] ---- *)
+SatC(c, env) == LET r == Eval(c.e, env) IN r.ok /\ (IsZero(r.v) = c.z)
+AllSat(alt, env) == \A j \in 1..Len(alt.cons) : SatC(alt.cons[j], env)
+RECURSIVE FirstBadPV(_, _, _, _)
+FirstBadPV(a, alts, envs, k) ==
+  IF k > Len(envs) THEN 0
+  ELSE LET va == Eval(a, envs[k]) IN
+       IF va.unk THEN -1
+       ELSE IF ~va.ok THEN FirstBadPV(a, alts, envs, k + 1)
+       ELSE IF ~\E j \in 1..Len(alts) : AllSat(alts[j], envs[k]) THEN k                     \* no alternative is enabled
+       ELSE IF \E j \in 1..Len(alts) : AllSat(alts[j], envs[k]) /\
+                   LET vj == Eval(alts[j].v, envs[k]) IN ~vj.ok \/ vj.v # va.v THEN 1000 + k   \* an enabled alternative is wrong
+       ELSE FirstBadPV(a, alts, envs, k + 1)
+
+(* ---- C10: ranges.  ivs = sequence of <<lo bytes, hi bytes>> (closed, unsigned) ---- *)
+InIvs(v, ivs, w) == \E j \in 1..Len(ivs) : Ule(FromBytes(ivs[j][1], w), v) /\ Ule(v, FromBytes(ivs[j][2], w))
+RECURSIVE FirstOutside(_, _, _, _)
+FirstOutside(a, ivs, envs, k) ==
+  IF k > Len(envs) THEN 0
+  ELSE LET va == Eval(a, envs[k]) IN
+       IF va.unk THEN -1
+       ELSE IF va.ok /\ ~InIvs(va.v, ivs, a.w) THEN k
+       ELSE FirstOutside(a, ivs, envs, k + 1)
+(* one modular-interval operation on small widths: every concrete result of members must be inside R *)
+GammaN(ivs) == UNION {ivs[j][1]..ivs[j][2] : j \in 1..Len(ivs)}            \* intervals as small naturals here
+MiopBad(it) ==
+  LET w == it.w
+      xs == GammaN(it.X) ys == IF it.arity = 2 THEN GammaN(it.Y) ELSE {0}
+      res(x, y) == IF it.arity = 1 THEN Apply(it.op, <<FromNat(x, w)>>, w)
+                   ELSE Apply(it.op, <<FromNat(x, w), FromNat(y, w)>>, w)
+  IN {<<x, y>> \in xs \X ys : LET r == res(x, y) IN r.ok /\ ToNat(r.v) \notin GammaN(it.R)}
+
+(* ---- C11: matching.  bind = sequence of [j |-> joker name, e |-> expression] ---- *)
+Bound(bind, n) == {i \in 1..Len(bind) : bind[i].j = n}
+RECURSIVE SubstJ(_, _)
+SubstJ(p, bind) ==
+  CASE p.k = "id" -> IF Bound(bind, p.n) # {} THEN bind[CHOOSE i \in Bound(bind, p.n) : TRUE].e ELSE p
+    [] p.k = "int" -> p
+    [] p.k = "mem" -> [p EXCEPT !.p = SubstJ(p.p, bind)]
+    [] p.k = "slice" -> [p EXCEPT !.a = SubstJ(p.a, bind)]
+    [] p.k = "cond" -> [p EXCEPT !.c = SubstJ(p.c, bind), !.t = SubstJ(p.t, bind), !.f = SubstJ(p.f, bind)]
+    [] p.k \in {"op", "compose"} -> [p EXCEPT !.a = [i \in 1..Len(p.a) |-> SubstJ(p.a[i], bind)]]
+Commut == {"+", "*", "&", "|", "^"}
+RECURSIVE EqModComm(_, _)
+EqModComm(x, y) ==
+  /\ x.k = y.k
+  /\ CASE x.k = "id" -> x.n = y.n /\ x.w = y.w
+        [] x.k = "int" -> x.w = y.w /\ x.v = y.v
+        [] x.k = "mem" -> x.w = y.w /\ EqModComm(x.p, y.p)
+        [] x.k = "slice" -> x.lo = y.lo /\ x.hi = y.hi /\ EqModComm(x.a, y.a)
+        [] x.k = "cond" -> EqModComm(x.c, y.c) /\ EqModComm(x.t, y.t) /\ EqModComm(x.f, y.f)
+        [] x.k = "compose" -> Len(x.a) = Len(y.a) /\ \A i \in 1..Len(x.a) : EqModComm(x.a[i], y.a[i])
+        [] x.k = "op" ->
+             /\ x.op = y.op /\ Len(x.a) = Len(y.a)
+             /\ IF x.op \in Commut
+                THEN \E f \in Permutations(1..Len(x.a)) : \A i \in 1..Len(x.a) : EqModComm(x.a[i], y.a[f[i]])
+                ELSE \A i \in 1..Len(x.a) : EqModComm(x.a[i], y.a[i])
+OneBindingPerJoker(bind) == \A i, j \in 1..Len(bind) : bind[i].j = bind[j].j => i = j
+
 Verdict(it) ==
   CASE it.t = "eq" ->
          IF it.a.w # it.b.w THEN "width"
@@ -51,6 +110,16 @@ Verdict(it) ==
               IF r > 0 THEN "bad:" \o ToString(r)
               ELSE IF ~it.idem THEN "notfixed"        \* simplifying the result again returned something else
               ELSE IF r = -1 THEN "unk" ELSE "ok"
+    [] it.t = "pv" ->
+         LET r == FirstBadPV(it.a, it.alts, it.envs, 1) IN
+         IF r = 0 THEN "ok" ELSE IF r = -1 THEN "unk" ELSE IF r > 1000 THEN "wrongalt:" \o ToString(r - 1000) ELSE "noalt:" \o ToString(r)
+    [] it.t = "range" ->
+         LET r == FirstOutside(it.a, it.ivs, it.envs, 1) IN
+         IF r = 0 THEN "ok" ELSE IF r = -1 THEN "unk" ELSE "outside:" \o ToString(r)
+    [] it.t = "miop" -> LET b == MiopBad(it) IN IF b = {} THEN "ok" ELSE "outside:" \o ToString(CHOOSE p \in b : TRUE)
+    [] it.t = "match" ->
+         IF ~OneBindingPerJoker(it.bind) THEN "twobindings"
+         ELSE IF EqModComm(SubstJ(it.p, it.bind), it.a) THEN "ok" ELSE "notamatch"
     [] it.t = "vals" ->
          LET r == FirstBadVal(it.a, it.envs, it.vs, 1) IN
          IF r = 0 THEN "ok" ELSE IF r = -1 THEN "unk" ELSE "bad:" \o ToString(r)
@@ -58,5 +127,5 @@ Verdict(it) ==
          LET va == Eval(it.a, it.env) IN
          IF va.unk THEN "unk" ELSE IF ~va.ok THEN "undef"
          ELSE IF va.v = FromBytes(it.v, it.a.w) THEN "ok" ELSE "bad:1"
-Report == lo < hi \/ PrintT("V " \o ToString(i) \o " " \o Verdict(Items[i]))
+Report == lo < hi \/ PrintT("V " \o ToString(cur) \o " " \o Verdict(Items[cur]))
 =============================================================================
